@@ -7,7 +7,6 @@ import (
 	"math/big"
 	"os"
 	"testing"
-	"testing/synctest"
 	"time"
 
 	"gitlab.com/gomidi/midi/v2/drivers/testdrv"
@@ -376,7 +375,7 @@ func (s *RecSc) Run(env *core.Env, st *core.Stats) (vs []core.Violation) {
 		}
 	}
 	if env != nil && env.T != nil {
-		synctest.Test(env.T, body)
+		runBubble(env, body)
 	} else {
 		body(nil)
 	}
